@@ -617,6 +617,11 @@ def gen_case(rnd, valid=True, focus=None):
     pos = [rnd.choice(LISTS["paths"][1]) for _ in range(npos)]
     # a value-less --color must be the last token, or be followed by another option or by an existing path
     for i, o in enumerate(argv):
+        if o[0] == "--color" and o[1] is None and i == len(argv) - 1 and pos and \
+                any(x[0] == "--color" and x[2] == "sp" for x in argv[:i]):
+            # make_command_args() looks at the *first* "--color" token only (documented HACK for `behave --color features/x`):
+            # a second value-less --color directly before a path is outside what it supports
+            o[1], o[2] = "auto", "eq"
         if o[0] == "--color" and o[1] is None and i == len(argv) - 1 and pos:
             if pos[0].startswith("/") or ":" in pos[0]:
                 pos[0] = "features"
